@@ -274,6 +274,17 @@ def check(item, tier):
                     if pv > q.policy.value(rb) + slack + 1e-7 * max(1, abs(pv)):
                         bad('pbvi_exceeds_qmdp_by_more_than_slack', dict(ctx, belief=b, pbvi=pv, qmdp=q.policy.value(rb), slack=slack))
                 check_action_dist(res.policy, rb, alist, r, item, 'pbvi', b, ctx)
+                # one-step look-ahead (mechanism "alpha-vector value and one-step look-ahead action value"): recomputed with the
+                # exact rational filter of the reference and the policy's own value() at the posterior beliefs
+                for a in ps.anames:
+                    look = float(sum((p * ps.sa_reward(s_, a) for s_, p in b.items() if p != 0), F(0)))
+                    for o, po in ps.predictive_obs(b, a).items():
+                        post = ps.posterior(b, a, o)
+                        look += float(g) * float(po) * float(res.policy.value(bel(post)))
+                    gotav = float(res.policy.action_value(rb, al(a)))
+                    r.count('transitions')
+                    if abs(gotav - look) > 1e-9 * max(1.0, abs(look)):
+                        bad('pbvi_action_value_not_one_step_lookahead', dict(ctx, belief=b, a=a, got=gotav, want=look))
             # fully observable kernels: exact at vertices of the used belief set that are closed
             if revealing and max(js) <= 5 and len(js) == 1:
                 usedv = {tuple(np.round(u, 12)) for u in used}
